@@ -80,8 +80,13 @@ def run_history(ctx, g, rng, length):
             return
         for n in range(1, 8):
             node = env.nodes[n - 1]
-            oe = sorted(env.canon_edge(e) for e in cfg.out_edges(node))
-            ie = sorted(env.canon_edge(e) for e in cfg.in_edges(node))
+            try:
+                oe = sorted(env.canon_edge(e) for e in cfg.out_edges(node))
+                ie = sorted(env.canon_edge(e) for e in cfg.in_edges(node))
+                list(node.outgoing_edges), list(node.incoming_edges)
+            except Exception as e:  # noqa: BLE001
+                problems.append("an adjacency view of n%d raised %s" % (n, type(e).__name__))
+                return
             items.append([0x16, n]); impl.append([0, oe])
             items.append([0x17, n]); impl.append([0, ie])
             if oe != [e for e in want if e[0] == n]:
